@@ -446,6 +446,34 @@ def c17(ctx):
         ctx.require(c)
 
 
+@prop("C20", level="exploration", rule="programs are the safe-API call sequences produced by the model-based explorers of C01-C19 (TLC-enumerated cases replayed on the real code, plus seeded random drivers), executed with overflow checks, debug assertions and the standard library's unsafe-precondition checks (tiny-width integer types additionally turn new_unchecked(0) and width overflow into panics); a case counts as non-trivial and distinct per (case kind, outcome class) pair; a violation is a process abort, an unsafe-precondition or overflow panic, or a call that does not return")
+def c20(ctx):
+    ctx.ub_only = True
+    ans_states(ctx, ["TypeInv"], "c10", widths=[(2, 4, 3, 2), (2, 6, 4, 1), (3, 6, 3, 1)])
+    ans_states(ctx, ["TypeInv"], "c04", widths=[(2, 4, 3, 2)])
+    range_hists(ctx, ["TypeInv"], "c02", widths=[(2, 4, 4, "{1,2}"), (2, 6, 4, "{2}"), (3, 6, 2, "{1,2,3}")])
+    rdec_cases(ctx, "c10")
+    chain_cases(ctx, "c10", ["StateInv"])
+    chain_cases(ctx, "c13", ["StateInv"])
+    model_cases(ctx, "fixed", "c20", fixed_cfgs(ctx))
+    model_cases(ctx, "uniform", "c20", uniform_cfgs(ctx))
+    model_cases(ctx, "fast", "c20", fast_cfgs(ctx))
+    model_cases(ctx, "leaky", "c20", leaky_cfgs(ctx))
+    model_cases(ctx, "leakybig", "c20", leakybig_cfgs(ctx))
+    model_cases(ctx, "floatclass", "c20", floatclass_cfgs(ctx))
+    cases = os.path.join(ctx.work, "backend.ndjson")
+    ctx.tlc("MC_Backend", {"MaxLen": 3}, invariants=["TypeInv", "Emit"], emit_to=cases)
+    ctx.vh("replay", mode="c20", infile=cases)
+    bit_coders(ctx, "c16")
+    symbol_cases(ctx, "huffman", 4, 3, "c15")
+    symbol_cases(ctx, "expgolomb", 8, 255, "c16")
+    ans_traces(ctx, exact=False, abstract=False)
+    range_traces(ctx, exact=False)
+    trace = os.path.join(ctx.work, "models.ndjson")
+    ctx.vh("drive_models", extra=["--n", "60", "--trace", trace])
+    ctx.required = {"buf_mut_shrink": 1}
+
+
 def selftest():
     return 0
 
